@@ -170,7 +170,7 @@ Proof.
     destruct (shaped_entry m key Hp Hl Hs) as [ts [eid [-> [Hts Heid]]]].
     nrw (entry_of_entry m ts eid Hts Heid). nrw (last_n_entry m ts eid Heid).
     rewrite reject_timed. nrw (ts_of_entry m ts eid Hts). nrw (prefix_entry m ts eid).
-    simpl negb. simpl orb. nrw (in_window_chk ts). simpl andb.
+    simpl negb. simpl orb. nrw (in_window_chk ts). simpl andb. unfold bytes, byte in *.
     destruct (lex_ltb (m ++ 0%N :: ts ++ 0%N :: eid) (seek_key true until0 (m ++ [0%N]))) eqn:Elt.
     + reflexivity.
     + (* at or above the seek key: the timestamp is above until *)
@@ -190,13 +190,13 @@ Proof.
     + apply entry_of_some in Ee. destruct Ee as [Hp Hl].
       change (has_prefix key (m ++ [0%N])) with (prefix_ok key (m ++ [0%N])) in Hp.
       rewrite Hp, Hl in E. simpl in E. rewrite Nat.eqb_refl in E. discriminate.
-    + rewrite E. simpl. destruct (lex_ltb _ _); reflexivity.
+    + simpl. destruct (lex_ltb _ _); reflexivity.
 Qed.
 
 Lemma timed_contrib m :
   contrib ks true since0 until0 events (m ++ [0%N]) = spec_block ks false since0 until0 events m.
 Proof.
-  unfold contrib, seek, spec_block. rewrite <- filter_rev.
+  unfold contrib, seek, spec_block, below. rewrite <- filter_rev.
   apply flat_map_filter_gen. intros key Hk. apply in_rev in Hk.
   unfold wf_keys, Shaped in *. rewrite Forall_forall in Hwf, Hshaped.
   apply (timed_pointwise m key (Hwf key Hk) (proj1 (Hshaped key Hk))).
@@ -242,7 +242,7 @@ Qed.
 
 Lemma ids_contrib m : contrib ks false since0 until0 events m = spec_block ks true since0 until0 events m.
 Proof.
-  unfold contrib, seek, spec_block. rewrite <- filter_rev.
+  unfold contrib, seek, spec_block, below. rewrite <- filter_rev.
   apply flat_map_filter_gen. intros key _. unfold yield. rewrite ids_hit.
   destruct (lex_ltb key (seek_key false until0 m)) eqn:Elt; [reflexivity|].
   destruct (bytes_eqb key m) eqn:E; [|reflexivity].
